@@ -35,15 +35,14 @@ func (f *File) getData() (data []byte, evicted bool) {
 }
 
 func (f *File) Read(p []byte) (n int, err error) {
-	if len(p) == 0 {
-		return 0, nil
-	}
-
 	f.sliceMu.RLock()
 	defer f.sliceMu.RUnlock()
 	buf, evicted := f.getData()
 	if evicted {
 		return 0, ErrEvicted
+	}
+	if len(p) == 0 {
+		return 0, nil
 	}
 
 	if f.off >= int64(len(buf)) {
@@ -56,9 +55,6 @@ func (f *File) Read(p []byte) (n int, err error) {
 
 // ReadAt implements [io.ReaderAt]. Thread-safe.
 func (f *File) ReadAt(p []byte, off int64) (n int, err error) {
-	if len(p) == 0 {
-		return 0, nil
-	}
 	if off < 0 {
 		return 0, errors.New("negative offset")
 	}
@@ -69,6 +65,9 @@ func (f *File) ReadAt(p []byte, off int64) (n int, err error) {
 	buf, evicted := f.getData()
 	if evicted {
 		return 0, ErrEvicted
+	}
+	if len(p) == 0 {
+		return 0, nil
 	}
 	if off >= int64(len(buf)) {
 		return 0, io.EOF
